@@ -21,4 +21,5 @@ RQ = [Shape(('all',), (0,), False), Shape(('all', 'all'), (0, 0), False), Shape(
 r = RecvUnit({'C03'}, RQ, RQ + [Shape(('all', 'all', 'all'), (0, 0, 0), False), Shape(('all', 'all'), (0, 0), True)], keep=keep_for('C03.'))
 r.mutants = RECV_MUTANTS['C03']
 r.required_covers = RecvUnit.required_covers + ('request sent',)
-UNITS = [s, m, ProcessFramesUnit(), r]
+from .sendwhole import PollRecvContract, SendMaybeContract, SendGlue
+UNITS = [s, m, ProcessFramesUnit(), r, PollRecvContract(), SendMaybeContract(), SendGlue()]
